@@ -170,4 +170,30 @@ CHECKS = {
                "geometry over Q) + vm_compute correspondence + rational "
                "brute force",
  },
+ "C07": {
+  "text": "Theorems (all series, dimensions, metrics, thresholds, masks): the "
+          "recurrence bit is exactly 'distance below threshold, and neither "
+          "state missing when missing-value handling is on'; a NaN distance "
+          "is never recurrent; the plot is symmetric with unit diagonal for a "
+          "positive threshold; the embedding has the stated entries and "
+          "length; the rate->threshold rule selects an order statistic of "
+          "the sorted distances so that at most floor(rate*(len-1)) distances "
+          "are strictly below it (insertion sort proved a sorted permutation); "
+          "joint plots with lag of either sign read only inside both plots "
+          "and have n-|lag| states, are symmetric, reduce to the product at "
+          "lag 0; inter-system matrices are the four stated blocks; a "
+          "recurrence network is R without its diagonal. Distance kernels "
+          "(NaN semantics per metric, Euclidean through squares), embedding, "
+          "quantile, joint, inter-system and network constructions are "
+          "compared with the implementation inside Coq. Local rates, adaptive "
+          "neighbourhoods (default and shuffled order), cross plots of unequal "
+          "lengths and applicability of every RQA method: direct checks only.",
+  "design_ref": "DESIGN.md section 5, C07",
+  "note": "trusted: kernels transcribed by hand; float rounding of "
+          "int(rate*(len-1)) avoided by dyadic rates; sqrt monotone; the "
+          "adaptive-neighbourhood kernel has no Coq model (partial)",
+  "technique": "Coq proofs (order statistics via StronglySorted/Permutation, "
+               "index arithmetic) + vm_compute correspondence of 7 "
+               "constructions + direct checks",
+ },
 }
